@@ -111,6 +111,15 @@ def DefWF (rd : ResourceDef) : Prop :=
   | .dynamic d => DynWF d
   | .dynamicSet ds => ∀ d ∈ ds, DynWF d
 
+/-- "slash-separated" patterns: no dynamic segment can contain a `/`, and each one is followed
+by the end of the pattern or by static text starting with `/` (e.g. `/user/{id}/post/{title}`) -/
+def Separated : List Seg → Prop
+  | [] => True
+  | .const _ :: rest => Separated rest
+  | .var _ re :: rest =>
+    (∀ w, LangRe re w → '/' ∉ w) ∧ (rest = [] ∨ ∃ cs rest', rest = .const ('/' :: cs) :: rest') ∧
+      Separated rest
+
 /-- the substring of `path` between two byte offsets (both on character boundaries) -/
 def Substr (path : List Char) (st en : Nat) (w : List Char) : Prop :=
   ∃ a b, path = a ++ w ++ b ∧ st = blen a ∧ en = blen a + blen w
